@@ -512,3 +512,163 @@ theorem stuck_not_exact (E : List Nat) (l : List β) (t : Term) (R : List (Bool 
     cases hs
 
 end Juniper.Proofs.StreamDen
+
+/-! ## `Runs` (documented protocol) hands soft failures through as well -/
+
+namespace Juniper.Proofs.StreamDen
+open Juniper.Model Juniper.Model.Stream Juniper.Gen.Comb
+universe u v x y
+variable {σ : Type u} {α : Type v}
+
+/-- a port of `Runs` either leaves the source alone and answers no error, or makes one source step and
+answers an error exactly when that step did (the same error) -/
+def PortThru (m : SM σ α) (s : σ) (c : Bool) {ρ : Type x} (r : SStep ρ) (s' : σ) : Prop :=
+  (s' = s ∧ ∀ e, r ≠ .err e) ∨ (s' = (m.step s c).2 ∧ ∀ e, (r = .err e ↔ (m.step s c).1 = .err e))
+
+theorem portThru_conv (m : SM σ α) (s : σ) (c : Bool) {ρ : Type x} {ρ' : Type v} (r : SStep ρ) (r' : SStep ρ') (s' : σ)
+    (h : PortThru m s c r s') (hrr : ∀ e, r' = .err e ↔ r = .err e) :
+    (s' = s ∧ ∀ e, r' = .err e → Err.soft e = false) ∨
+    (s' = (m.step s c).2 ∧ ∀ e, Err.soft e = true → (r' = .err e ↔ (m.step s c).1 = .err e)) := by
+  rcases h with ⟨h1, h2⟩ | ⟨h1, h2⟩
+  · exact Or.inl ⟨h1, fun e he => absurd ((hrr e).mp he) (h2 e)⟩
+  · exact Or.inr ⟨h1, fun e _ => (hrr e).trans (h2 e)⟩
+
+theorem peekPeek_thru (m : SM σ α) (p : PeekSt σ α) (c : Bool) :
+    PortThru m p.inner c (peekPeek m p c).1 (peekPeek m p c).2.inner := by
+  obtain ⟨s, curr⟩ := p
+  cases curr with
+  | some a => left; simp [peekPeek, stPeekPulls]
+  | none =>
+    right
+    rcases hy : m.step s c with ⟨r, u⟩
+    cases r <;> simp [peekPeek, stPeekPulls, hy]
+
+theorem runsInner_thru (same : α → α → Bool) (m : SM σ α) (g : Nat) (st : RunsSt σ α) (c : Bool) :
+    PortThru m st.pk.inner c (runsInner same m g st c).1 (runsInner same m g st c).2.pk.inner := by
+  obtain ⟨⟨s, curr⟩, gen, live⟩ := st
+  cases live with
+  | none => left; simp [runsInner]
+  | some l =>
+    obtain ⟨g', prev, det⟩ := l
+    by_cases hg1 : g' = g
+    case neg => left; simp [runsInner, hg1]
+    subst hg1
+    cases det with
+    | true => left; simp [runsInner]
+    | false =>
+      cases curr with
+      | some a =>
+        left
+        by_cases hb : same prev a = true
+        · simp [runsInner, peekPeek, stPeekPulls, hb, peekNext, stPeekNextHas]
+        · simp [runsInner, peekPeek, stPeekPulls, hb]
+      | none =>
+        right
+        rcases hy : m.step s c with ⟨r, u⟩
+        cases r with
+        | item a =>
+          by_cases hb : same prev a = true
+          · simp [runsInner, peekPeek, stPeekPulls, hy, stPeekSetsHas, hb, peekNext, stPeekNextHas]
+          · simp [runsInner, peekPeek, stPeekPulls, hy, stPeekSetsHas, hb]
+        | skip => simp [runsInner, peekPeek, stPeekPulls, hy]
+        | end_ => simp [runsInner, peekPeek, stPeekPulls, hy]
+        | err e => simp [runsInner, peekPeek, stPeekPulls, hy]
+
+theorem PortThru.conv {m : SM σ α} {s : σ} {c : Bool} {ρ : Type x} {ρ' : Type y} {r : SStep ρ} {r' : SStep ρ'} {s' : σ}
+    (h : PortThru m s c r s') (hrr : ∀ e, r' = .err e ↔ r = .err e) : PortThru m s c r' s' := by
+  rcases h with ⟨h1, h2⟩ | ⟨h1, h2⟩
+  · exact Or.inl ⟨h1, fun e he => h2 e ((hrr e).mp he)⟩
+  · exact Or.inr ⟨h1, fun e => (hrr e).trans (h2 e)⟩
+
+theorem runsOuter_thru (same : α → α → Bool) (m : SM σ α) (st : RunsSt σ α) (c : Bool) :
+    PortThru m st.pk.inner c (runsOuter same m st c).1 (runsOuter same m st c).2.pk.inner := by
+  obtain ⟨⟨s, curr⟩, gen, live⟩ := st
+  cases live with
+  | some l =>
+    obtain ⟨g, prev, det⟩ := l
+    have h := runsInner_thru same m g ⟨⟨s, curr⟩, gen, some (g, prev, det)⟩ c
+    simp only [runsOuter]
+    rcases hr : runsInner same m g ⟨⟨s, curr⟩, gen, some (g, prev, det)⟩ c with ⟨r, st'⟩
+    rw [hr] at h
+    simp only at h
+    have e : ∀ x : RunsSt σ α, (if stRunsClosesCurr = true then runsInnerClose g x else x).pk = x.pk := by
+      intro x; split
+      · exact runsInnerClose_inner g x
+      · rfl
+    cases r with
+    | end_ =>
+      simp only [runsDrainOn_end]
+      rw [e]
+      exact h.conv (fun e => ⟨fun he => (by cases he), fun he => (by cases he)⟩)
+    | err e0 =>
+      simp only [runsDrainOn_err]
+      exact h.conv (fun e => ⟨fun he => (by cases he; rfl), fun he => (by cases he; rfl)⟩)
+    | item a =>
+      simp only [runsDrainOn_item]
+      exact h.conv (fun e => ⟨fun he => (by cases he), fun he => (by cases he)⟩)
+    | skip =>
+      simp only
+      exact h.conv (fun e => ⟨fun he => (by cases he), fun he => (by cases he)⟩)
+  | none =>
+    have h := peekPeek_thru m ⟨s, curr⟩ c
+    simp only [runsOuter]
+    rcases hr : peekPeek m ⟨s, curr⟩ c with ⟨r, pk'⟩
+    rw [hr] at h
+    simp only at h
+    cases r with
+    | skip =>
+      simp only
+      exact h.conv (fun e => ⟨fun he => (by cases he), fun he => (by cases he)⟩)
+    | item a =>
+      simp only [runsPeekOn_item]
+      exact h.conv (fun e => ⟨fun he => (by cases he), fun he => (by cases he)⟩)
+    | end_ =>
+      simp only [runsPeekOn_end]
+      exact h.conv (fun e => ⟨fun he => (by cases he), fun he => (by cases he)⟩)
+    | err e0 =>
+      simp only [runsPeekOn_err]
+      exact h.conv (fun e => ⟨fun he => (by cases he; rfl), fun he => (by cases he; rfl)⟩)
+
+/-- `Runs` used through the documented protocol hands the soft failures of its source through -/
+theorem runsProto_softThru (same : α → α → Bool) (take : Option Nat) (cl : Bool) (m : SM σ α) :
+    SoftThru m (runsProto same take cl m) (fun st => st.rs.pk.inner) where
+  step := by
+    intro t c
+    obtain ⟨rs, cur⟩ := t
+    cases cur with
+    | none =>
+      have h := runsOuter_thru same m rs c
+      simp only [runsProto]
+      rcases hr : runsOuter same m rs c with ⟨r, rs'⟩
+      rw [hr] at h
+      simp only at h
+      cases r with
+      | item g => exact portThru_conv m _ c _ _ _ h (fun e => ⟨fun he => (by cases he), fun he => (by cases he)⟩)
+      | skip => exact portThru_conv m _ c _ _ _ h (fun e => ⟨fun he => (by cases he), fun he => (by cases he)⟩)
+      | end_ => exact portThru_conv m _ c _ _ _ h (fun e => ⟨fun he => (by cases he), fun he => (by cases he)⟩)
+      | err e0 => exact portThru_conv m _ c _ _ _ h (fun e => ⟨fun he => (by cases he; rfl), fun he => (by cases he; rfl)⟩)
+    | some x =>
+      obtain ⟨g, acc, k⟩ := x
+      simp only [runsProto]
+      by_cases ht : Juniper.Model.Iter.takeReached take k = true
+      · left; simp [ht]
+      · have ht' : Juniper.Model.Iter.takeReached take k = false := by simpa using ht
+        have h := runsInner_thru same m g rs c
+        rcases hr : runsInner same m g rs c with ⟨r, rs'⟩
+        rw [hr] at h
+        simp only at h
+        simp only [ht', Bool.false_eq_true, if_false]
+        cases r with
+        | end_ =>
+          simp only
+          have e : (if cl = true then runsInnerClose g rs' else rs').pk = rs'.pk := by
+            cases cl with
+            | true => simp only [if_true]; exact runsInnerClose_inner g rs'
+            | false => rfl
+          rw [e]
+          exact portThru_conv m _ c _ _ _ h (fun e => ⟨fun he => (by cases he), fun he => (by cases he)⟩)
+        | item a => exact portThru_conv m _ c _ _ _ h (fun e => ⟨fun he => (by cases he), fun he => (by cases he)⟩)
+        | skip => exact portThru_conv m _ c _ _ _ h (fun e => ⟨fun he => (by cases he), fun he => (by cases he)⟩)
+        | err e0 => exact portThru_conv m _ c _ _ _ h (fun e => ⟨fun he => (by cases he; rfl), fun he => (by cases he; rfl)⟩)
+
+end Juniper.Proofs.StreamDen
